@@ -2,6 +2,8 @@
 
 package multi
 
+import "github.com/biogo/biogo/alphabet"
+
 // Contracts for the deductive verifier in /verif (govc). Only compiled with -tags verif.
 // Rows are seen through the interface model of package seq (ghost fields rowStart/rowLen of the row object).
 
@@ -86,3 +88,49 @@ func verifLemmaSpanDeterministic(m *Multi) (a, b, c, d int) {
 //@   requires m != nil && 0 <= i && i < len(m.Seq)
 //@   ensures result == m.Seq[i]
 //@   assigns nothing
+
+// Column with fill (C07): entry k of the column view at pos is the letter row k shows at pos through its row
+// view, or the alphabet's gap letter when row k does not cover pos. Stated for alignments whose rows are plain
+// sequences (a nested alignment contributes several entries per row).
+//@ func (*Multi).Column
+//@   property C07
+//@   maypanic
+//@   requires rows(m) && m.Alpha != nil && forall k int :: 0 <= k && k < len(m.Seq) ==> !implements(m.Seq[k], seq.Aligned)
+//@   ensures [filled] fill ==> len(result) == len(m.Seq) && forall k int :: 0 <= k && k < len(m.Seq) ==> result[k] == ((rowStart(m.Seq[k]) <= pos && pos < rowStart(m.Seq[k]) + rowLen(m.Seq[k])) ? cellLetter(cellKey(ref(m.Seq[k]), pos)) : gapOf(m.Alpha))
+//@   assigns fresh
+//@   loop 1 invariant 0 <= idx && idx <= len(m.Seq) && rows(m) && m.Alpha != nil
+//@   loop 1 invariant [storage] fresh(c) && allocated(c)
+//@   loop 1 invariant [length] fill ==> len(c) == idx
+//@   loop 1 invariant forall k int :: 0 <= k && k < len(m.Seq) ==> !implements(m.Seq[k], seq.Aligned)
+//@   loop 1 invariant fill ==> forall k int :: 0 <= k && k < idx ==> c[k] == ((rowStart(m.Seq[k]) <= pos && pos < rowStart(m.Seq[k]) + rowLen(m.Seq[k])) ? cellLetter(cellKey(ref(m.Seq[k]), pos)) : gapOf(m.Alpha))
+//@   loop 1 writes fresh
+
+//@ func (*Multi).ColumnQL
+//@   property C07
+//@   maypanic
+//@   requires rows(m) && m.Alpha != nil && forall k int :: 0 <= k && k < len(m.Seq) ==> !implements(m.Seq[k], seq.Aligned)
+//@   ensures [filled] fill ==> len(result) == len(m.Seq) && forall k int :: 0 <= k && k < len(m.Seq) ==> result[k].L == ((rowStart(m.Seq[k]) <= pos && pos < rowStart(m.Seq[k]) + rowLen(m.Seq[k])) ? cellLetter(cellKey(ref(m.Seq[k]), pos)) : gapOf(m.Alpha))
+//@   ensures [qualities] fill ==> forall k int :: 0 <= k && k < len(m.Seq) && rowStart(m.Seq[k]) <= pos && pos < rowStart(m.Seq[k]) + rowLen(m.Seq[k]) ==> result[k].Q == cellQual(cellKey(ref(m.Seq[k]), pos))
+//@   assigns fresh
+//@   loop 1 invariant 0 <= idx && idx <= len(m.Seq) && rows(m) && m.Alpha != nil
+//@   loop 1 invariant [storage] fresh(c) && allocated(c)
+//@   loop 1 invariant [length] fill ==> len(c) == idx
+//@   loop 1 invariant forall k int :: 0 <= k && k < len(m.Seq) ==> !implements(m.Seq[k], seq.Aligned)
+//@   loop 1 invariant fill ==> forall k int :: 0 <= k && k < idx ==> c[k].L == ((rowStart(m.Seq[k]) <= pos && pos < rowStart(m.Seq[k]) + rowLen(m.Seq[k])) ? cellLetter(cellKey(ref(m.Seq[k]), pos)) : gapOf(m.Alpha))
+//@   loop 1 invariant fill ==> forall k int :: 0 <= k && k < idx && rowStart(m.Seq[k]) <= pos && pos < rowStart(m.Seq[k]) + rowLen(m.Seq[k]) ==> c[k].Q == cellQual(cellKey(ref(m.Seq[k]), pos))
+//@   loop 1 writes fresh
+
+// The letter seen through the row view at a position equals the entry of the filled column view at that position;
+// rows that do not cover the position show the gap letter in the column view.
+//@ func verifLemmaRowColumnAgree
+//@   property C07
+//@   lemma
+//@   maypanic
+//@   requires rows(m) && m.Alpha != nil && 0 <= k && k < len(m.Seq) && (forall i int :: 0 <= i && i < len(m.Seq) ==> !implements(m.Seq[i], seq.Aligned))
+//@   ensures [covered] rowStart(m.Seq[k]) <= pos && pos < rowStart(m.Seq[k]) + rowLen(m.Seq[k]) ==> viaColumn == viaRow
+//@   ensures [gap]     !(rowStart(m.Seq[k]) <= pos && pos < rowStart(m.Seq[k]) + rowLen(m.Seq[k])) ==> viaColumn == gapOf(m.Alpha)
+func verifLemmaRowColumnAgree(m *Multi, pos, k int) (viaRow, viaColumn alphabet.Letter) {
+	viaColumn = m.Column(pos, true)[k]
+	viaRow = m.Row(k).At(pos).L
+	return
+}
